@@ -24,6 +24,9 @@ func init() {
 			{ID: "C02-R1", Title: "no operand-driven frame selection for capture", Floor: 1, Run: c02r1},
 			{ID: "C02-R2", Title: "cells point into per-activation storage and are used through Value/Set", Floor: 4, Run: c02r2},
 			{ID: "C02-R3", Title: "name resolution is nearest-scope-first", Floor: 1, Run: c02r3},
+			{ID: "C02-R4", Title: "variable instructions carry an operand of their own namespace", Floor: 30, Run: c02r4},
+			{ID: "C02-R5", Title: "initializer compiled before the declared name is inserted", Floor: 2, Run: c02r5},
+			{ID: "C02-R6", Title: "frame slots are unique per function", Floor: 2, Run: c02r6},
 		},
 	})
 }
@@ -272,4 +275,328 @@ func c02r3(c *core.Ctx) {
 	c.Check(bad == "" && n > 0, "compiler.SymbolTable.Resolve|nearest-scope-first", posOf(p, fd),
 		"before walking outward Resolve looks a name up only in its own maps; a hit in a table of the enclosing function (e.g. its free-variable cache) would take precedence over a declaration in a nearer block, so a shadowing inner variable would resolve to the captured outer one"+ifs(bad != "", ": "+bad))
 	c.Stat("lookups_before_walk", n)
+}
+
+// c02r4: variable instructions carry an operand of their own namespace.
+// LoadFree/StoreFree index the closure's free-variable list (Resolution.freeIndex);
+// LoadFast/StoreFast/LoadGlobal/StoreGlobal index the frame / globals array
+// (Symbol.Index()).  Inside a switch over the resolution's scope the opcode
+// family agrees with the case.
+func c02r4(c *core.Ctx) {
+	p := c.P
+	cp := p.Pkg("compiler")
+	info := cp.TypesInfo
+	emit := emitMethod(p)
+	resT := core.MustType(cp, "Resolution")
+	symT := core.MustType(cp, "Symbol")
+	freeIdx := fieldByName(resT, "freeIndex")
+	symIndex := core.Method(symT, "Index")
+	if freeIdx == nil || symIndex == nil {
+		core.Undecidedf("Resolution.freeIndex / Symbol.Index not found")
+	}
+	want := map[string]string{"LoadFree": "free", "StoreFree": "free", "LoadFast": "sym", "StoreFast": "sym", "LoadGlobal": "sym", "StoreGlobal": "sym"}
+	scopeOf := map[string]string{"LoadFree": "Free", "StoreFree": "Free", "LoadFast": "Local", "StoreFast": "Local", "LoadGlobal": "Global", "StoreGlobal": "Global"}
+	n := 0
+	funcBodies(cp, func(fn *types.Func, fd *ast.FuncDecl) {
+		assigns := localAssignments(info, fd.Body)
+		var kind func(e ast.Expr, depth int) (free, sym bool)
+		kind = func(e ast.Expr, depth int) (free, sym bool) {
+			if depth > 4 {
+				return
+			}
+			ast.Inspect(e, func(k ast.Node) bool {
+				switch x := k.(type) {
+				case *ast.SelectorExpr:
+					if fieldOf(info, x) == freeIdx {
+						free = true
+					}
+				case *ast.CallExpr:
+					if calleeOf(info, x) == symIndex {
+						sym = true
+					}
+				case *ast.Ident:
+					if o := info.Uses[x]; o != nil {
+						for _, r := range assigns[o] {
+							f2, s2 := kind(r, depth+1)
+							free, sym = free || f2, sym || s2
+						}
+					}
+				}
+				return true
+			})
+			return
+		}
+		idx := map[string]int{}
+		walkStack(fd.Body, func(nd ast.Node, stack []ast.Node) bool {
+			ce, ok := nd.(*ast.CallExpr)
+			if !ok || calleeOf(info, ce) != emit || len(ce.Args) < 2 {
+				return true
+			}
+			k, _ := objOf(info, ce.Args[0]).(*types.Const)
+			if k == nil || want[k.Name()] == "" {
+				return true
+			}
+			n++
+			idx[k.Name()]++
+			free, sym := kind(ce.Args[1], 0)
+			ok2 := (want[k.Name()] == "free" && free && !sym) || (want[k.Name()] == "sym" && sym && !free)
+			// scope switch agreement
+			scopeBad := ""
+			for i := len(stack) - 1; i >= 0; i-- {
+				cc, isCC := stack[i].(*ast.CaseClause)
+				if !isCC || i < 2 {
+					continue
+				}
+				sw, isSw := stack[i-2].(*ast.SwitchStmt)
+				if !isSw || sw.Tag == nil {
+					continue
+				}
+				if f := fieldOf(info, sw.Tag); f == nil || f.Name() != "scope" {
+					continue
+				}
+				for _, e := range cc.List {
+					if kc, _ := objOf(info, e).(*types.Const); kc != nil && kc.Name() != scopeOf[k.Name()] {
+						scopeBad = "emitted under case " + kc.Name()
+					}
+				}
+				break
+			}
+			c.Check(ok2 && scopeBad == "", "compiler."+declName(fd)+"|"+k.Name()+"#"+itoa(idx[k.Name()])+"|operand-namespace", posOf(p, ce),
+				k.Name()+" takes "+map[string]string{"free": "the position in the closure's free-variable list (Resolution.freeIndex)", "sym": "the slot of the symbol (Symbol.Index())"}[want[k.Name()]]+
+					"; operand is "+exprStr(ce.Args[1])+ifs(scopeBad != "", "; "+scopeBad))
+			return true
+		})
+	})
+	c.Stat("variable_instruction_sites", n)
+}
+
+// c02r5: a declaration's initializer is compiled before its name enters the
+// symbol table, so `x := x + 1` in an inner block reads the outer x.
+func c02r5(c *core.Ctx) {
+	p := c.P
+	cp := p.Pkg("compiler")
+	info := cp.TypesInfo
+	stT := core.MustType(cp, "SymbolTable")
+	ct := core.MustType(cp, "Compiler")
+	compile := core.MustMethod(ct, "compile")
+	n := 0
+	funcBodies(cp, func(fn *types.Func, fd *ast.FuncDecl) {
+		if core.RecvNamed(fn) != ct {
+			return
+		}
+		// name(s), expr := node.Value()  on a declaration node
+		var nameObjs []types.Object
+		var exprObj types.Object
+		ast.Inspect(fd.Body, func(k ast.Node) bool {
+			as, ok := k.(*ast.AssignStmt)
+			if !ok || len(as.Lhs) != 2 || len(as.Rhs) != 1 {
+				return true
+			}
+			ce, ok := as.Rhs[0].(*ast.CallExpr)
+			if !ok {
+				return true
+			}
+			cal := calleeOf(info, ce)
+			if cal == nil || cal.Name() != "Value" || cal.Pkg() == nil || cal.Pkg().Path() != pkgPath("ast") {
+				return true
+			}
+			if id, ok := as.Lhs[0].(*ast.Ident); ok {
+				nameObjs = append(nameObjs, objOfIdent(info, id))
+			}
+			if id, ok := as.Lhs[1].(*ast.Ident); ok {
+				exprObj = objOfIdent(info, id)
+			}
+			return true
+		})
+		if exprObj == nil || len(nameObjs) == 0 {
+			return
+		}
+		assigns := localAssignments(info, fd.Body)
+		var fromName func(e ast.Expr, d int) bool
+		fromName = func(e ast.Expr, d int) bool {
+			found := false
+			ast.Inspect(e, func(k ast.Node) bool {
+				if id, ok := k.(*ast.Ident); ok {
+					o := info.Uses[id]
+					for _, nobj := range nameObjs {
+						if o == nobj {
+							found = true
+						}
+					}
+					if o != nil && d < 3 {
+						for _, r := range assigns[o] {
+							if fromName(r, d+1) {
+								found = true
+							}
+						}
+					}
+				}
+				return true
+			})
+			return found
+		}
+		compilePos, insertPos := token.NoPos, token.NoPos
+		ast.Inspect(fd.Body, func(k ast.Node) bool {
+			ce, ok := k.(*ast.CallExpr)
+			if !ok {
+				return true
+			}
+			cal := calleeOf(info, ce)
+			if cal == compile && len(ce.Args) == 1 && objOf(info, ce.Args[0]) == exprObj && compilePos == token.NoPos {
+				compilePos = ce.Pos()
+			}
+			if cal != nil && core.RecvNamed(cal) == stT && strings.HasPrefix(cal.Name(), "Insert") && len(ce.Args) >= 1 {
+				// range variable of a loop over names counts as derived from names
+				if fromName(ce.Args[0], 0) || rangesOver(info, fd, ce.Args[0], nameObjs) {
+					if insertPos == token.NoPos || ce.Pos() < insertPos {
+						insertPos = ce.Pos()
+					}
+				}
+			}
+			return true
+		})
+		if compilePos == token.NoPos || insertPos == token.NoPos {
+			return
+		}
+		n++
+		c.Check(compilePos < insertPos, "compiler."+declName(fd)+"|initializer-before-declaration", posOf(p, fd),
+			declName(fd)+" compiles the initializer before inserting the declared name: otherwise a shadowing declaration whose initializer mentions the outer variable of the same name (x := x + 1) reads its own unset slot")
+	})
+	c.Stat("declaration_functions", n)
+}
+
+// rangesOver: e is (derived from) the value variable of a range loop over one of objs.
+func rangesOver(info *types.Info, fd *ast.FuncDecl, e ast.Expr, objs []types.Object) bool {
+	id, ok := ast.Unparen(e).(*ast.Ident)
+	if !ok {
+		return false
+	}
+	target := info.Uses[id]
+	found := false
+	ast.Inspect(fd.Body, func(k ast.Node) bool {
+		switch x := k.(type) {
+		case *ast.RangeStmt:
+			if v, ok := x.Value.(*ast.Ident); ok && info.Defs[v] == target {
+				for _, o := range objs {
+					if objOf(info, x.X) == o {
+						found = true
+					}
+				}
+			}
+		case *ast.AssignStmt:
+			// name := names[i]
+			for i, l := range x.Lhs {
+				if lid, ok := l.(*ast.Ident); ok && objOfIdent(info, lid) == target && i < len(x.Rhs) {
+					if ix, ok := ast.Unparen(x.Rhs[i]).(*ast.IndexExpr); ok {
+						for _, o := range objs {
+							if objOf(info, ix.X) == o {
+								found = true
+							}
+						}
+					}
+				}
+			}
+		}
+		return true
+	})
+	return found
+}
+
+// c02r6: frame slots are unique per function.  claimIndex numbers a new symbol
+// with the length of the function table's symbol list and appends to it; no
+// SymbolTable method shortens that list, so two variables of one function never
+// share a slot (a closure that captured a block variable would otherwise share
+// storage with a later sibling block's variable).
+func c02r6(c *core.Ctx) {
+	p := c.P
+	cp := p.Pkg("compiler")
+	stT := core.MustType(cp, "SymbolTable")
+	symT := core.MustType(cp, "Symbol")
+	symbolsF := fieldByName(stT, "symbols")
+	indexF := fieldByName(symT, "index")
+	if symbolsF == nil || indexF == nil {
+		core.Undecidedf("SymbolTable.symbols / Symbol.index not found")
+	}
+	fieldIdx := func(nt *types.Named, f *types.Var) int {
+		st := nt.Underlying().(*types.Struct)
+		for i := 0; i < st.NumFields(); i++ {
+			if st.Field(i) == f {
+				return i
+			}
+		}
+		return -1
+	}
+	symbolsI, indexI := fieldIdx(stT, symbolsF), fieldIdx(symT, indexF)
+	isSymbolsLoad := func(v ssa.Value) bool {
+		u, ok := v.(*ssa.UnOp)
+		if !ok || u.Op != token.MUL {
+			return false
+		}
+		fa, ok := u.X.(*ssa.FieldAddr)
+		return ok && fa.Field == symbolsI && core.NamedOf(fa.X.Type()) == stT
+	}
+	n := 0
+	for _, m := range core.Methods(stT) {
+		sf := p.SSAFunc(m)
+		if sf == nil || sf.Blocks == nil {
+			continue
+		}
+		for _, b := range sf.Blocks {
+			for _, in := range b.Instrs {
+				st, ok := in.(*ssa.Store)
+				if !ok {
+					continue
+				}
+				fa, ok := st.Addr.(*ssa.FieldAddr)
+				if !ok {
+					continue
+				}
+				switch {
+				case fa.Field == indexI && core.NamedOf(fa.X.Type()) == symT:
+					n++
+					fromLen := core.DependsOn(st.Val, func(w ssa.Value) bool {
+						if call, ok := w.(*ssa.Call); ok {
+							if bi, ok := call.Call.Value.(*ssa.Builtin); ok && bi.Name() == "len" && len(call.Call.Args) == 1 {
+								return isSymbolsLoad(call.Call.Args[0])
+							}
+						}
+						return false
+					})
+					other := core.DependsOn(st.Val, func(w ssa.Value) bool {
+						if call, ok := w.(*ssa.Call); ok {
+							if cal := call.Call.StaticCallee(); cal != nil && core.RepoFunc(cal) {
+								return true
+							}
+						}
+						return false
+					})
+					c.Check(fromLen && !other, "compiler.SymbolTable."+m.Name()+"|slot=len(symbols)", p.Pos(st.Pos()),
+						"the slot given to a new symbol is the current length of the function's symbol list (monotonic, never reused)")
+				case fa.Field == symbolsI && core.NamedOf(fa.X.Type()) == stT:
+					n++
+					okv := true
+					for _, o := range core.Origins(st.Val) {
+						switch x := o.(type) {
+						case *ssa.Call:
+							if bi, ok := x.Call.Value.(*ssa.Builtin); !ok || bi.Name() != "append" || !isSymbolsLoad(x.Call.Args[0]) {
+								okv = false
+							}
+						case *ssa.MakeSlice, *ssa.Slice:
+							if sl, ok := x.(*ssa.Slice); ok {
+								if _, isAlloc := sl.X.(*ssa.Alloc); !isAlloc {
+									okv = false // re-slice of an existing list
+								}
+							}
+						case *ssa.Const:
+						default:
+							okv = false
+						}
+					}
+					c.Check(okv, "compiler.SymbolTable."+m.Name()+"|symbols-append-only", p.Pos(st.Pos()),
+						"the per-function symbol list only grows (append to itself, or a fresh empty list)")
+				}
+			}
+		}
+	}
+	c.Stat("slot_sites", n)
 }
